@@ -138,6 +138,8 @@ def run(ctx):
         recv_task = None
 
         async def do_recv():
+            if o['closed']:          # a send noticed the disconnect / the socket was closed after this receive was requested
+                return
             log.append('recvStart'); o['active_recv'] += 1
             try:
                 t = await ws.receive_text()
@@ -225,10 +227,10 @@ def run(ctx):
                 leftover = 'the pump task is still pending when close() returns'
             if br._pump_task is not None and leftover is None:
                 leftover = '_pump_task is still referenced after close()'
-            if [f for f in o['pending'] if not f.done()] and leftover is None:
+            if cap > 0 and [f for f in o['pending'] if not f.done()] and leftover is None:
                 leftover = 'a pull on the server is still outstanding after close()'
-            if (not o['sent'] or o['sent'][-1].get('type') != 'websocket.close') and not (cap > 0 and br.client_disconnected) and leftover is None:
-                leftover = 'close() did not send a close event'
+            if (not o['sent'] or o['sent'][-1].get('type') != 'websocket.close') and not o['disc_delivered'] and leftover is None:
+                leftover = 'close() did not send a close event although the client had not disconnected'
             for _ in range(4):
                 await asyncio.sleep(0)
         else:
@@ -334,17 +336,17 @@ def run(ctx):
         i, nsh = ctx.shard
         j = 0
         ks = (1, 2) if ctx.quick else (1, 2, 3)
-        for sched in schedules(ctx.quick):
+        for si, sched in enumerate(schedules(ctx.quick)):
             for cap in (0, 1, 2, 3, 4):
                 for k in ks:
+                    if (si + cap + k) % nsh != i:       # a shard runs all disconnect/ending variants of its (schedule, capacity, k)
+                        continue
                     for disc in (False, True):
                         endings = ('drain', 'close') if len(sched) <= (3 if ctx.quick else 5) else ('drain',)
                         for ending in endings:
                             j += 1
-                            if j % nsh != i:
-                                continue
                             judge(cap, k, disc, sched, ending, await run_one(cap, k, disc, sched, ending))
-        ctx.count('exhaustive_runs_all_shards', j if i == 0 else 0)
+        ctx.count('exhaustive_runs', j)
         for _ in range(ctx.n(4000, 60000)):
             cap = rnd.choice([0, 1, 1, 2, 3, 4]); k = rnd.randint(1, 8); disc = rnd.random() < 0.5
             sched = ''.join(rnd.choice('DDRRYYYCS') for _ in range(rnd.randint(5, 40)))
